@@ -89,14 +89,26 @@ def loader(run, p):
                            'loadTestsFrom* entry points filter through one method; the per-method tag lookup is inheritance-aware '
                            '(getattr on the class, not its own __dict__)')
     t = p.fn('tdda.referencetest.referencetest.tag')
+    def name_of(f, e):
+        """the attribute name an expression denotes: a literal, or a constant of this or an imported module"""
+        try:
+            v = p.fold(f.mod, e)
+        except AnalysisError:
+            return None
+        return v if isinstance(v, str) else None
     sets = {x.attr for x in ast.walk(t.node) if isinstance(x, ast.Attribute) and isinstance(x.ctx, ast.Store)}
+    sets |= {name_of(t, x.args[1]) for x in ast.walk(t.node) if isinstance(x, ast.Call) and getattr(x.func, 'id', '') == 'setattr' and len(x.args) >= 2}
     L = p.cls('TaggedTestLoader')
     reads = set()
     for f in list(L.methods.values()) + [p.fn('tdda.referencetest.referencepytest.tagged')]:
         for x in ast.walk(f.node):
-            if isinstance(x, ast.Call) and getattr(x.func, 'id', '') in ('hasattr', 'getattr') and len(x.args) >= 2 and \
-                    isinstance(x.args[1], ast.Constant) and isinstance(x.args[1].value, str) and x.args[1].value.startswith('_') and not x.args[1].value.startswith('__'):
-                reads.add(x.args[1].value)
+            if isinstance(x, ast.Call) and getattr(x.func, 'id', '') in ('hasattr', 'getattr') and len(x.args) >= 2:
+                nm = name_of(f, x.args[1])
+                if nm is None and not isinstance(x.args[1], ast.Constant) and not (isinstance(x.args[1], ast.Name) and x.args[1].id in set(f.params) | set(
+                        y.id for y in ast.walk(f.node) if isinstance(y, ast.Name) and isinstance(y.ctx, ast.Store))):
+                    reads.add('<%s>' % norm(x.args[1]))
+                if nm and nm.startswith('_') and not nm.startswith('__'):
+                    reads.add(nm)
     run.ob('C19-LOADER', 'tag-attribute', len(sets) == 1 and reads == sets, 'tag() sets %s; loader and pytest filter read %s' % (sorted(sets), sorted(reads)), fn=t)
     # the decorator marks the object it is given and nothing else (functions found through a class are shared with
     # every other subclass of the base that defines them)
